@@ -188,7 +188,7 @@ end Ggrs
 
 namespace Ggrs
 
-/-- **C06/C07, the host's side with dropped players (non-sparse rollback sessions, drops detected
+/-- **C06/C07, the host's side with dropped players (rollback sessions, drops detected
 locally).** After any run of arrivals, calls, accepted `disconnect_player` calls and Disconnected
 events, one more call offers its spectator endpoints exactly the frames `next_spectator_frame,
 next_spectator_frame + 1, …` in this order, never beyond `confirmed_frame()` (the minimum over the
